@@ -24,9 +24,9 @@ theorem acceptAvps_some (rs : List (Option AVP)) (as : List AVP) (h : Spec.accep
     · cases h; exact ⟨.inr ⟨_, _, rfl⟩, rfl⟩
     · cases h
 
-theorem specData_isData (w : UInt16) (s : Bytes) (m : Msg) (k : Nat) (h : Spec.decodeData w s = some (m, k)) :
+theorem specData_isData (w : UInt16) (s : Bytes) (m : Msg) (k : Nat) (h : Spec.decodeDataM w s = some (m, k)) :
     ∃ d, m = .data d := by
-  unfold Spec.decodeData at h
+  unfold Spec.decodeDataM at h
   simp only [] at h
   repeat' split at h
   all_goals first
@@ -34,11 +34,11 @@ theorem specData_isData (w : UInt16) (s : Bytes) (m : Msg) (k : Nat) (h : Spec.d
     | cases h
 
 theorem specControl_inv (w : UInt16) (o : Opts) (s : Bytes) (c : Control) (k : Nat)
-    (h : Spec.decodeControl w o s = some (.control c, k)) :
+    (h : Spec.decodeControlM w o s = some (.control c, k)) :
     let body := (s.drop 10).take (c.length.toNat - 12)
     12 ≤ c.length.toNat ∧ c.length.toNat ≤ s.length + 2 ∧ k = c.length.toNat - 2 ∧
       Spec.acceptAvps (Spec.avps (body.length + 1) body) = some c.avps := by
-  unfold Spec.decodeControl at h
+  unfold Spec.decodeControlM at h
   split at h
   · cases h
   split at h
@@ -68,7 +68,7 @@ theorem control_accepted_inv (o : Opts) (b : Bytes) (c : Control) (r : Bytes)
       Spec.acceptAvps (Spec.avps (((b.drop 12).take (c.length.toNat - 12)).length + 1)
         ((b.drop 12).take (c.length.toNat - 12))) = some c.avps := by
   obtain ⟨n, hs, hr⟩ := decode_ok_spec o b _ r h
-  unfold Spec.decode at hs
+  unfold Spec.decodeM at hs
   split at hs
   · cases hs
   rename_i hlen
@@ -79,13 +79,13 @@ theorem control_accepted_inv (o : Opts) (b : Bytes) (c : Control) (r : Bytes)
   · cases hs
   by_cases hc : isControl (u16At b 0) = true
   · rw [if_pos hc] at hs
-    cases hp : Spec.decodeControl (u16At b 0) o (b.drop 2) with
+    cases hp : Spec.decodeControlM (u16At b 0) o (b.drop 2) with
     | none => rw [hp] at hs; cases hs
     | some p =>
       rw [hp] at hs
       simp only [Option.map, Option.some.injEq, Prod.mk.injEq] at hs
       obtain ⟨h1, h2⟩ := hs
-      have hp' : Spec.decodeControl (u16At b 0) o (b.drop 2) = some (.control c, p.2) := by rw [hp, ← h1]
+      have hp' : Spec.decodeControlM (u16At b 0) o (b.drop 2) = some (.control c, p.2) := by rw [hp, ← h1]
       have := specControl_inv _ o _ c p.2 hp'
       simp only [List.drop_drop, List.length_drop] at this
       obtain ⟨a1, a2, a3, a4⟩ := this
@@ -95,7 +95,7 @@ theorem control_accepted_inv (o : Opts) (b : Bytes) (c : Control) (r : Bytes)
         rw [e] at a4
         exact a4
   · rw [if_neg hc] at hs
-    cases hp : Spec.decodeData (u16At b 0) (b.drop 2) with
+    cases hp : Spec.decodeDataM (u16At b 0) (b.drop 2) with
     | none => rw [hp] at hs; cases hs
     | some p =>
       rw [hp] at hs
